@@ -65,6 +65,46 @@ def run(fb, rep, tier):
     c3_history(fb, rep)
     c4_states(fb, rep)
     c5_ep_tables(fb, rep)
+    c6_parallel_lists(fb, rep)
+
+
+def c6_parallel_lists(fb, rep):
+    """K10 sibling agreement of the console game's parallel history lists: the move list, the undo-information list and
+    the draw-offer list are indexed by the same move number, so every operation that changes their length (append, truncate
+    after a take-back, clear) must be applied to all of them in the same place.  A list that is not truncated keeps flags of
+    discarded moves: a draw offer from a line that was taken back is then accepted, a genuine one is missed."""
+    clause = 'C11.6'
+    GROW = ('push_back', 'emplace_back')
+    SHRINK = ('erase', 'resize', 'clear', 'pop_back')
+    fs = [f for f in fb.funcs.values() if f.has_cfg and (f.d.get('cls') or '') == 'Game']
+    # the parallel lists: vector fields of Game that are appended to in one and the same block
+    groups = []
+    for f in fs:
+        for bid, blk in f.blocks.items():
+            if bid in f.dead:
+                continue
+            grown = []
+            for e in blk['ev']:
+                if e.get('k') == 'call' and cname(e).split('::')[-1] in GROW and (ap(e.get('recv')) or '').startswith('this.'):
+                    grown.append(ap(e['recv'])[5:])
+            if len(set(grown)) >= 2:
+                groups.append(frozenset(grown))
+    lists = set().union(*groups) if groups else set()
+    rep.floor(clause, 'parallel history lists of the console game', len(lists), 3)
+    n = 0
+    for f in sorted(fs, key=lambda x: x.key):
+        per_kind = {}
+        for b, i, e in f.events():
+            if e.get('k') == 'call' and (ap(e.get('recv')) or '')[5:] in lists and (ap(e.get('recv')) or '').startswith('this.'):
+                last = cname(e).split('::')[-1]
+                kind = 'grow' if last in GROW else 'shrink' if last in SHRINK else None
+                if kind:
+                    per_kind.setdefault(kind, set()).add(ap(e['recv'])[5:])
+        for kind, touched in sorted(per_kind.items()):
+            n += 1
+            rep.ob(clause, 'K10 sibling agreement', '%s: every %s of the history lists is applied to all of them' % (f.sname, 'append' if kind == 'grow' else 'truncation / clear'),
+                   touched == lists, f.where, 'lists %s, %s applied to %s' % (sorted(lists), kind, sorted(touched)), f.sname)
+    rep.floor(clause, 'length-changing operations on the history lists', n, 3)
 
 
 def c5_ep_tables(fb, rep):
